@@ -101,7 +101,7 @@ _EXPR_KINDS = {"BinaryOperator", "CompoundAssignOperator", "UnaryOperator", "Arr
                "ConditionalOperator", "UnaryExprOrTypeTraitExpr"}
 _CAST_KINDS = {"LValueToRValue", "IntegralCast", "IntegralToFloating", "FloatingCast", "FunctionToPointerDecay",
                "NoOp", "BitCast", "NullToPointer", "PointerToIntegral"}
-_BINOPS = {"=", "+", "-", "*", "<", "<=", ">", ">=", "==", "!=", "&&", "||", "/"}
+_BINOPS = {"=", "+", "-", "*", "<", "<=", ">", ">=", "==", "!=", "&&", "||", "/", "%"}
 _COMPOUND = {"+=", "-=", "*="}
 _UNOPS = {"++", "--", "-", "!", "&"}
 
